@@ -303,11 +303,7 @@ pub fn replay(case: &J) -> Verdict {
         return hayson_roundtrip(&v).map_err(|(stage, d)| (format!("{stage}:two-values-in-one-document:{}", crate::model::shrink::shape_sig(&v)), d));
     }
     if case["history_pair"].is_string() {
-        let (w, v) = (crate::model::v::from_json(&case["before"]), crate::model::v::from_json(&case["then"]));
-        let alone = std::thread::scope(|s| s.spawn(|| hayson_observation(&v)).join().unwrap());
-        let _ = hayson_observation(&w);
-        let after = hayson_observation(&v);
-        return if alone == after { Ok(()) } else { Err(("history-changes-output:hayson-codec".into(), format!("alone {alone}, after {after}"))) };
+        return super::common::replay_history_pair(case, &|j| crate::model::v::from_json(j), &hayson_observation, "hayson-codec");
     }
     if case["oracle"] == "user-record" {
         return replay_value(case, &user_record_roundtrip);
